@@ -7,7 +7,7 @@ MatchFacts.lean:
                   isinstance test guards it).  `raise X(...)`/`raise X` -> 'X';
                   bare `raise` -> '<reraise>'; `raise name` of a local variable ->
                   '<var:name>'.
-  matchCatches  : site -> classes named by every `except` clause in source order.
+  matchCatches  : site -> for every `except` clause in source order, the classes it names.
   mRecorded     : (class, dunder, op char) for the comparison overloads of _MType/_MSubspec
   mDispatch     : (op char, Python comparison operator) from the `matched = (...)`
                   expression of _MExpr.glomit
@@ -77,11 +77,11 @@ def raises_catches(fn):
     cs = []
     for n in ordered([n for n in walk_no_nested(fn) if isinstance(n, ast.ExceptHandler)]):
         if n.type is None:
-            cs.append('BaseException')
+            cs.append(['BaseException'])
         elif isinstance(n.type, ast.Tuple):
-            cs.append('|'.join(ast.unparse(e) for e in n.type.elts))
+            cs.append([ast.unparse(e) for e in n.type.elts])
         else:
-            cs.append(ast.unparse(n.type))
+            cs.append([ast.unparse(n.type)])
     return rs, cs
 
 
@@ -157,7 +157,9 @@ def extract(ctx):
                                                        if isinstance(n, ast.Raise)])]
             cs = []
             for n in ordered([n for n in walk_no_nested(wrapper) if isinstance(n, ast.ExceptHandler)]):
-                cs.append(ast.unparse(n.type) if n.type is not None else 'BaseException')
+                cs.append(['BaseException'] if n.type is None else
+                          [ast.unparse(e) for e in n.type.elts] if isinstance(n.type, ast.Tuple)
+                          else [ast.unparse(n.type)])
             raises.append(('_glom_match/' + lab, rs))
             catches.append(('_glom_match/' + lab, cs))
 
@@ -313,7 +315,7 @@ def extract(ctx):
 
     defs = [
         ('matchRaises', 'List (String × List String)', raises),
-        ('matchCatches', 'List (String × List String)', catches),
+        ('matchCatches', 'List (String × List (List String))', catches),
         ('mRecorded', 'List (String × String × String)', recorded),
         ('mDispatch', 'List (String × String)', dispatch),
         ('boolOps', 'List (String × String × String)', boolops),
